@@ -76,8 +76,73 @@ def budget(tier):
 
 
 # ------------------------------------------------------------------------------------------------
+PAIR_SEQS = [[["mes", "cost"], ["phragmen", ""]], [["mes", "cost"], ["mes", "card"]],
+             [["mes", "cost"], ["mes", "card"], ["greedy", "cost"]],
+             [["mes", "cost"], ["phragmen", ""], ["greedy", "card"]]]
+
+
+def gen_mesiter_deep(rng):
+    """Targeted stream for the state that the iterated Equal Shares carries from one try to the next (voters'
+    budgets, cached affordabilities of the shared MESProject objects): 5..8 projects with spread costs, 3..6
+    voters with overlapping ballots, a budget well below the total cost and SMALL increments, so that several
+    projects are bought per try, supporters run short (cached affordabilities rise) and 4..10 tries are needed."""
+    m = rng.choice([5, 6, 6, 7, 7, 8])
+    n = rng.choice([3, 4, 4, 5, 6])
+    style = rng.randrange(3)
+    if style == 0:
+        costs = [Fraction(rng.randint(1, 6)) for _ in range(m)]
+    elif style == 1:
+        costs = [Fraction(rng.choice([1, 2, 3, 4, 5, 6, 8])) for _ in range(m)]
+    else:
+        costs = [Fraction(rng.randint(2, 12), 2) for _ in range(m)]
+    tot = sum(costs, Fraction(0))
+    B = tot * rng.choice([Fraction(1, 2), Fraction(2, 3), Fraction(3, 5), Fraction(2, 5), Fraction(3, 4)])
+    ballots = [sorted(rng.sample(range(m), rng.randint(1, min(m, 4)))) for _ in range(n)]
+    inc = rng.choice([Fraction(1, 4), Fraction(1, 8), Fraction(1, 6), Fraction(1, 5), Fraction(1, 3)])
+    resolute = m > 6 or rng.random() < 0.8
+    return {"kind": "mesiter", "stream": "mesiter_deep", "costs": [pb.qs(c) for c in costs], "budget": pb.qs(B),
+            "ballots": ballots, "multi": rng.random() < 0.3, "init": [], "resolute": resolute,
+            "sat": rng.choice(["cost", "card"]), "step": pb.qs(inc)}
+
+
+def gen_completion_pair(rng):
+    """Targeted stream for the bookkeeping of irresolute completion over SEVERAL pending allocations: under
+    Cost_Sat two projects a, b with the same supporters tie whatever their costs; the budget is chosen so that the
+    supporters can pay either but not both, so Equal Shares returns two different non-exhaustive outcomes with
+    different money left, which the later rules (Phragmen / Equal Shares with another measure / greedy) complete
+    differently -- one exhaustively, the other not."""
+    n = rng.choice([3, 3, 4])
+    s_ = n - 1
+    ca, cb = Fraction(rng.randint(2, 6)), Fraction(rng.randint(2, 6))
+    fill = [pb.F(rng.choice([1, 1, 2, 2, 3, "3/2"])) for _ in range(rng.choice([2, 3, 3, 4]))]
+    lo, hi = max(ca, cb) * n / s_, (ca + cb) * n / s_
+    cands = [Fraction(x, 2) for x in range(int(lo * 2), int(hi * 2) + 1) if lo <= Fraction(x, 2) < hi] or [lo]
+    B = rng.choice(cands)
+    costs = [ca, cb] + fill
+    m = len(costs)
+    perm = list(range(m))
+    rng.shuffle(perm)
+    newc = [None] * m
+    for j in range(m):
+        newc[perm[j]] = costs[j]
+    ballots = []
+    for v in range(n):
+        b = [perm[0], perm[1]] if v < s_ else []
+        for j in range(2, m):
+            if rng.random() < (0.7 if v >= s_ else 0.25):
+                b.append(perm[j])
+        ballots.append(sorted(b))
+    return {"kind": "completion", "stream": "completion_pair", "costs": [pb.qs(c) for c in newc], "budget": pb.qs(B),
+            "ballots": ballots, "multi": rng.random() < 0.3, "init": [], "resolute": rng.random() < 0.1,
+            "rules": rng.choice(PAIR_SEQS), "params_none": False}
+
+
 def gen(rng, i, tier):
-    kind = ["increase", "increase", "mesiter", "completion"][i % 4]
+    if i % 5 == 3:
+        return gen_mesiter_deep(rng)
+    if i % 5 == 4:
+        return gen_completion_pair(rng)
+    kind = ["increase", "mesiter", "completion", "increase", "increase"][i % 5]
     resolute = rng.random() < (0.6 if kind != "completion" else 0.4)
     m = rng.choice([1, 2, 3, 3, 4, 4, 5, 5, 6]) if resolute else rng.choice([1, 2, 3, 3, 4, 4, 5])
     n = rng.choice([1, 2, 2, 3, 3, 4, 5])
@@ -428,7 +493,7 @@ def nontrivial(case, o):
 
 
 def stats(cases, obs):
-    d = {"kind": {}, "rule": {}, "resolute": 0, "irresolute": 0, "multiprofile": 0, "init_nonempty": 0,
+    d = {"kind": {}, "stream": {}, "rule": {}, "resolute": 0, "irresolute": 0, "multiprofile": 0, "init_nonempty": 0,
          "fractional_step": 0, "default_step": 0, "default_bound": 0, "exhaustive_stop_off": 0,
          "stop_reason": {}, "tries_hist": {}, "skipped_over_cap": 0, "fractional_costs": 0, "zero_cost": 0,
          "irresolute_with_several_outcomes": 0, "completion_depth": {}, "mes_bare_allocation_returned": 0,
@@ -443,6 +508,7 @@ def stats(cases, obs):
                 d["skipped_over_cap"] += 1
             continue
         inc(d["kind"], c["kind"])
+        inc(d["stream"], c.get("stream", "general"))
         d["resolute" if c["resolute"] else "irresolute"] += 1
         d["multiprofile"] += bool(c["multi"])
         d["init_nonempty"] += bool(c["init"])
